@@ -302,8 +302,13 @@ class KInterp:
                            and U(x.value.func).split(".")[0] in ("logger", "logging", "warnings") for x in s.body)
             if only_log and not s.orelse:
                 return
-            if all(isinstance(x, ast.Raise) for x in s.body) and not s.orelse:
-                st["kernel"].raises.append((test.b, U(s.body[0].exc)[:80] if s.body[0].exc is not None else ""))
+            if s.body and isinstance(s.body[-1], ast.Raise) and not s.orelse and all(
+                    isinstance(x, ast.Raise) or (isinstance(x, ast.Assign) and all(isinstance(t_, ast.Name) for t_ in x.targets))
+                    or (isinstance(x, ast.Expr) and isinstance(x.value, ast.Call) and U(x.value.func).split(".")[0] in ("logger", "logging", "warnings"))
+                    for x in s.body):
+                # a guard that (after preparing its message) raises: nothing of it reaches the statements that follow
+                rz = s.body[-1]
+                st["kernel"].raises.append((test.b, U(rz.exc)[:80] if rz.exc is not None else ""))
                 return
             has_ret = any(isinstance(x, ast.Return) for x in s.body)
             if has_ret:
@@ -350,6 +355,15 @@ class KInterp:
         it = s.iter
         lv = None
         extra = {}
+        if isinstance(it, ast.Call) and U(it.func) == "zip" and it.args and all(isinstance(a, (ast.Tuple, ast.List)) for a in it.args) \
+                and isinstance(s.target, ast.Tuple) and len(s.target.elts) == len(it.args):
+            # zip over displays: unrolled
+            n_ = min(len(a.elts) for a in it.args)
+            for k_ in range(n_):
+                for tt, a in zip(s.target.elts, it.args):
+                    self.store(tt, self.eval(a.elts[k_], st), st, None)
+                self.block(s.body, st)
+            return
         if isinstance(it, ast.Call) and U(it.func) == "range" and len(it.args) == 1 and isinstance(s.target, ast.Name):
             lv = s.target.id
         elif isinstance(it, ast.Call) and U(it.func) == "enumerate" and isinstance(s.target, ast.Tuple) \
@@ -1361,6 +1375,13 @@ class KInterp:
                 lst = U(e.args[1]).replace(" ", "")
                 if isinstance(b, (list, tuple)) and all(isinstance(x_, PyVal) for x_ in b):
                     lst = repr(sorted(str(x_.v) for x_ in b)).replace(" ", "")
+                elif isinstance(b, MaskedView) and isinstance(b.base, GExpr) and b.base.plain() is not None:
+                    # the set is described by what it is (values of a column on the rows of a mask), not by the local that holds it
+                    from .algebra import fmt_poly as _fp
+                    lst = "%s[%s]" % (_fp(b.base.plain()), str(b.mask))
+                elif isinstance(b, GExpr) and b.plain() is not None and not isinstance(e.args[1], (ast.List, ast.Tuple, ast.Constant)):
+                    from .algebra import fmt_poly as _fp
+                    lst = _fp(b.plain())
                 av = self._as_num(a) if not isinstance(a, (NodeRange, Concat)) else None
                 if av is not None and av.plain() is not None:
                     from .algebra import fmt_poly
